@@ -119,7 +119,7 @@ def _redeliver(case: dict) -> dict:
             continue
         v, o = c02.effect_oracles(spec, run, prop="C09")
         obs.update(o)
-        rc, tc = oracles.exec_counts(ref.ledger), oracles.exec_counts(run.ledger)
+        rc, tc = oracles.counts_for(spec, oracles.exec_counts(ref.ledger)), oracles.counts_for(spec, oracles.exec_counts(run.ledger))
         if rc != tc and all(tc.get(k, 0) <= rc.get(k, 0) for k in tc) and oracles.wait_budget_gave_up(run):
             # redeliveries and rescheduled (delayed) deliveries stretched the run until a CompleteWorkflow poll chain
             # used up its wait budget (6 in the harness environment): legal, and says nothing about dedup
